@@ -87,6 +87,16 @@ CLAIMED = {
          "Trusted: CPython's ast parser, sa/terms.py, the sanitiser table in sa/props/c04.py. Assumes HMAC/AES/Feistel hide "
          "their message under a secret key; lengths and counts are not treated as content; pairwise distinctness of concrete "
          "ciphertexts is a property of the library cipher and is not examined."),
+ "C05": ("symbolic length analysis (polynomials over configuration parameters) of all stored terms + dominance rules",
+         "Decides the static core of the property: for every container of every scheme's encrypted database, all labels have "
+         "one symbolic byte length and all values one unit length, real and filler entries alike (ENC(n) models the "
+         "ciphertext of an n-byte message, configuration slots are expanded through _parse_config, level factors 2^i are "
+         "stripped); the trip count of every filler loop is free of keyword- or list-dependent terms; each container the "
+         "property lists as padded still receives os.urandom fillers; blocks are zero-padded to a size free of per-list "
+         "quantities; database padding dominates the level loop; the level count is ceil(log2 N).",
+         "Trusted: CPython's ast parser, sa/terms.py, sa/symlen.py (length algebra), sa/props/c05.py. Assumes identifiers "
+         "have exactly param_identifier_size bytes (valid-database domain) and len(Encrypt(k,m)) depends only on len(m) "
+         "(C14). Equality of measured shapes on concrete databases is not examined."),
 }
 NA_REASON = "check under construction in this session (see DESIGN.md section 3); not yet registered"
 NA = {}
